@@ -435,16 +435,16 @@ func genExpBundle(r *vlib.R, p expPlan, now int64, span int, nx bool, seq int) (
 	expRefresh = func(at int64) string {
 		resign := func(old []expSig) []expSig {
 			out := make([]expSig, len(old))
-			for i, s := range old {
-				out[i] = expSig{ttl: s.ttl, orig: s.orig, exp: at + int64(10*(5+r.Intn(40)))}
+			for i := range old {
+				out[i] = expSig{ttl: 10 * uint32(40+r.Intn(20)), orig: 10 * uint32(40+r.Intn(20)), exp: at + int64(10*(40+r.Intn(20)))}
 			}
 			return out
 		}
 		var ss2 []string
 		for _, s := range sets {
-			ss2 = append(ss2, fmt.Sprintf("%s|%s|%s|%d|%s", s.rec.owner, s.rec.next, typesStr(s.rec.types), 10*(20+r.Intn(40)), sigsStr(resign(s.sigs))))
+			ss2 = append(ss2, fmt.Sprintf("%s|%s|%s|%d|%s", s.rec.owner, s.rec.next, typesStr(s.rec.types), 10*(40+r.Intn(20)), sigsStr(resign(s.sigs))))
 		}
-		soa2 := fmt.Sprintf("%d,%d,%s", 10*(20+r.Intn(40)), 10*(20+r.Intn(40)), sigsStr(resign(soaSigs)))
+		soa2 := fmt.Sprintf("%d,%d,%s", 10*(40+r.Intn(20)), 10*(40+r.Intn(20)), sigsStr(resign(soaSigs)))
 		return fmt.Sprintf("exp reput %s %s %s %d %s - %s", p.zone, kind, subject, qtype, soa2, strings.Join(ss2, ";"))
 	}
 	return fmt.Sprintf("exp put %s %s %s %d %s %s %s", p.zone, kind, subject, qtype, soa, cut, strings.Join(ss, ";")), subject
@@ -659,13 +659,13 @@ func genExpCase(r *vlib.R, emit func(string)) int {
 		cnt++
 		// the same denial proven again (re-signed) while the first copy is still
 		// resident, then time runs past the FIRST copy's deadlines
-		if r.Chance(1, 2) && expRefresh != nil {
+		if r.Chance(2, 3) && expRefresh != nil {
 			emit(expRefresh(now))
 			cnt++
-			for j := 0; j < 2; j++ {
+			for j := 0; j < 3; j++ {
 				d := int64(5 + 10*r.Intn(12))
 				if j > 0 {
-					d = int64(10 * (1 + r.Intn(12)))
+					d = int64(10 * (1 + r.Intn(15)))
 				}
 				emit(fmt.Sprintf("exp adv %d", d))
 				now += d
